@@ -388,4 +388,13 @@ def cases(tier, seed):
     add('case_lattice', sizes=[3, 3, 2], units=3, mono=[1, 1, 0], edge=[[0, 2, 1], [1, 2, -1]], trap=[[0, 2, 1]], mdom=[[0, 1]],
         omin=0.0, omax=1.0, required=False, timeout=300)
     add('case_pwl', nk=4, units=3, mono=1, omin=0.0, omax=2.0, clamp_max=True, missing=True, required=False)
+    add('case_lattice', sizes=[3, 3, 3], units=1, mono=[1, 1, 1], edge=[[0, 1, 1], [2, 1, -1]], trap=[[0, 2, 1]], jmono=[[0, 2]], omin=-1.0, omax=2.0,
+        required=False, timeout=300)
+    add('case_lattice', sizes=[2, 4], units=2, mono=[1, 1], rdom=[[0, 1]], mdom=[], omin=0.0, required=False, timeout=300)
+    add('case_linear', mono=[1, 1, -1, -1, 0], units=3, mdom=[[0, 1]], rdom=[[2, 3]], imin=[None, None, 0.0, -1.0, None], imax=[None, None, 2.0, 1.0, None],
+        required=False)
+    add('case_linear', mono=[1, 1, 1, 1], units=2, norm=2, imin=[None] * 4, imax=[None] * 4, required=False)
+    add('case_categorical', n=6, units=2, pairs=[[0, 1], [1, 2], [3, 4], [0, 5], [2, 5]], omin=0.0, omax=1.0, required=False)
+    add('case_kfl', ls=3, dims=3, units=2, terms=2, mono=[1, 0, 1], omin=0.0, omax=1.0, required=False)
+    add('case_kfl', ls=4, dims=2, units=1, terms=3, mono=[1, 1], omax=0.0, required=False)
   return out
